@@ -1,4 +1,20 @@
-"""C17 cases: std trait implementations vs inherent methods (see harness/src/bin/c17.rs header)."""
+"""C17 cases: std trait implementations vs inherent methods (see harness/src/bin/c17.rs header).
+
+Input classes (all general, none keyed to a particular change):
+  * every operator form (vv vr rv rr as asr inh) of every binary operator, both build modes, signed and unsigned;
+  * Shl/Shr: in the first repetition of every configuration EVERY (amount type x direction x form) is called, the six
+    forms of one group share the operand and the amount and are followed by the inherent `sh*_u32_inh` on the same
+    operand and `amount mod 2^32` (`post` compares the crate's answers directly, also where the specification leaves
+    the value open: release shifts whose reduced amount is >= BITS at a width that is not a power of two); the amount
+    classes rotate so that every (type, mode) sees every class;
+  * bnum-typed amounts `BUint<M>` / `BInt<M>` with M = N and M in {1, 2, N+1} (`impl<const N, const M>`), amounts around
+    BITS, around 2^32, negative, with only high digits set;
+  * `Ord::max/min/clamp` (overridden in {buint,bint}/cmp.rs) and their inherent twins;
+  * Sum/Product lists whose left fold overflows at an intermediate step only, or lands exactly on the limits;
+  * FromStr numerals at the representable limits of EVERY configuration (MAX, MAX+1, 2^BITS-1, 2^BITS, 10^k-1, 10^k for
+    k = decimal length of MAX and k +- 1; signed also MIN, MIN-1, -(10^k)), with '+' and leading zeros;
+  * the widest instantiation of every digit type (8192 bits): every operator family with a few well-chosen operands.
+"""
 from .common import *
 from .c03 import div_pair
 from .c02 import mul_pair
@@ -8,27 +24,217 @@ HARNESS_BINS_THOROUGH = ["widths"]
 
 
 def ROUTE(line):
-    # the c17 bin instantiates CFGS17 only; every other u8xN (from the all-widths sweep) goes to `widths`
+    # the c17 bin instantiates ALL17 only; every other u8xN (from the all-widths sweep) goes to `widths`
     p = line.split(" ")
-    if p[0] == "from_str" and p[1].startswith("u8x") and p[1][1:] not in CFGS17:
+    if p[0] == "from_str" and p[1].startswith("u8x") and p[1][1:] not in ALL17:
         return "widths"
     return "c17"
 
 
-CFGS17 = ["8x1", "8x2", "8x3", "8x5", "8x17", "8x64", "16x1", "16x3", "16x4", "32x2", "32x3", "64x1", "64x2", "64x3", "64x16"]
-QUICK17 = ["8x1", "8x3", "8x5", "16x3", "32x2", "64x1", "64x2", "64x3", "8x17", "64x16", "8x64"]
+CFGS17 = ["8x1", "8x2", "8x3", "8x4", "8x5", "8x6", "8x7", "8x8", "8x17", "8x64", "16x1", "16x3", "16x4", "32x2", "32x3",
+          "64x1", "64x2", "64x3", "64x16"]
+QUICK17 = ["8x1", "8x3", "8x5", "16x3", "32x2", "64x1", "64x2", "64x3", "8x17", "64x16", "8x64", "8x4", "8x6", "8x7", "8x8"]
+# 32, 48, 56, 64 bits with u8 digits (56 bits: the only width strictly between the f64 mantissa and 64): fewer repetitions
+LIGHT17 = ["8x4", "8x6", "8x7", "8x8"]
+# the widest in-scope instantiation of every digit type (8192 bits): a few well-chosen requests each (WIDE_CASES)
+WIDE17 = list(HUGE_CFGS)
+ALL17 = CFGS17 + WIDE17
 FORMS = ["vv", "vr", "rv", "rr", "as", "asr", "inh"]
 SFORMS = ["vv", "vr", "rv", "rr", "as", "asr"]
 PRIM = {"u8": (8, False), "u16": (16, False), "u32": (32, False), "u64": (64, False), "u128": (128, False), "usize": (64, False),
         "i8": (8, True), "i16": (16, True), "i32": (32, True), "i64": (64, True), "i128": (128, True), "isize": (64, True)}
+U32 = 1 << 32
+N_AMOUNT_CLASSES = 22
 
 
-def prim_amount(rng, ty, W):
+def prim_amount(rng, ty, W, cls=None):
+    """a shift amount of primitive type `ty` (clamped into the type's range); `cls` selects the class"""
     bits, signed = PRIM[ty]
     lo, hi = (-(1 << (bits - 1)), (1 << (bits - 1)) - 1) if signed else (0, (1 << bits) - 1)
-    k = rng.choice([0, 1, W - 1, W, W + 1, 2 * W, -1, -W, lo, hi, (1 << 32) - 1, 1 << 32, (1 << 32) + 3, (1 << 32) + W,
-                    rng.randrange(W), rng.randrange(W), rng.randrange(W)])
+    classes = [0, 1, W - 1, W, W + 1, 2 * W, -1, -W, lo, hi, U32 - 1, U32, U32 + 3, U32 + W,
+               # `as u32` truncation lands below BITS: from above 2^32, from a negative value, from above 2^64
+               U32 + W - 1, 5 - U32, (1 << 64) + 7, (1 << 40) + (W >> 1),
+               rng.randrange(W), rng.randrange(W), rng.randrange(W), rng.randrange(max(1, min(W, hi + 1)))]
+    assert len(classes) == N_AMOUNT_CLASSES
+    k = classes[cls % len(classes)] if cls is not None else rng.choice(classes)
     return max(lo, min(hi, k))
+
+
+def bnum_amount(rng, w, m, W, cls=None):
+    """the pattern of a `BUint<m>` / `BInt<m>` shift amount (w-bit digits) for an operand of W bits"""
+    Wk = w * m
+    Mk = 1 << Wk
+    classes = [0, 1, W - 1, W, W + 1, rng.randrange(W), rng.randrange(W), rng.randrange(W), Mk - 1, Mk >> 1, (Mk >> 1) - 1,
+               U32 - 1, U32, U32 + 1, U32 + (W >> 1),
+               # only the top digit set / low digits in range but one high digit set (-> does not fit u32)
+               1 << (w * (m - 1)), rng.randrange(W) | (1 << (Wk - 1)), rng.randrange(W) | (rng.randrange(1, 1 << w) << (w * rng.randrange(m))),
+               Mk - rng.randrange(1, W + 2), rng.randrange(Mk)]
+    k = classes[cls % len(classes)] if cls is not None else rng.choice(classes)
+    return k % Mk
+
+
+def bnum_amount_value(kind, w, m, k):
+    """exact value of the amount pattern `k`"""
+    Wk = w * m
+    return k - (1 << Wk) if (kind == "bi" and k >> (Wk - 1)) else k
+
+
+def inh_partner(sh, s, cfg, mode, a, eff):
+    return f"{sh}_u32_inh {s}{cfg} {mode} {hx(a)} {eff}"
+
+
+def prim_eff(mode, k):
+    """the u32 the inherent method is called with (None: the conversion itself panics)"""
+    if mode == "rel":
+        return k % U32
+    return k if 0 <= k < U32 else None
+
+
+def limit_numerals(W, sg):
+    """decimal numerals at the representable limits of a W-bit type: (text, tag)"""
+    M = 1 << W
+    mx = (M >> 1) - 1 if sg else M - 1
+    nd = len(str(mx))
+    vals = [mx, mx + 1, M - 1, M, mx - 1]
+    for k in (nd - 1, nd, nd + 1):
+        if k >= 1:
+            vals += [10 ** k - 1, 10 ** k]
+    vals.append(int("9" * nd))                  # the largest numeral with as many digits as MAX
+    vals.append(int(str(mx)[:-1] + "0") + 10)   # MAX rounded up to the next multiple of ten (same length, too large)
+    out = []
+    seen = set()
+    for v in vals:
+        if v in seen or v < 0:
+            continue
+        seen.add(v)
+        for pre in ("", "+", "00", "+000", "0" * nd):
+            out.append((pre + str(v), "from_str-limit"))
+    if sg:
+        mn = M >> 1
+        negs = [mn, mn + 1, mn - 1, mx + 2]
+        for k in (nd - 1, nd, nd + 1):
+            if k >= 1:
+                negs += [10 ** k, 10 ** k - 1]
+        seen = set()
+        for v in negs:
+            if v in seen:
+                continue
+            seen.add(v)
+            for pre in ("-", "-00", "-" + "0" * nd):
+                out.append((pre + str(v), "from_str-limit-neg"))
+    else:
+        out += [("-0", "from_str-limit-neg"), ("-1", "from_str-limit-neg")]
+    return out
+
+
+def fold_lists(rng, w, n, sg):
+    """lists for Sum / Product whose LEFT fold overflows at an intermediate step only, or lands on the limits"""
+    W = w * n
+    M = 1 << W
+    mx = (M >> 1) - 1 if sg else M - 1
+    m1 = M - 1          # pattern of -1 (signed) / MAX (unsigned)
+    i = rng.randrange(1, W)
+    out = []
+    if sg:
+        out += [("sum", [mx, 1, m1]), ("sum", [m1, mx, 1]), ("sum", [M >> 1, m1, 1]), ("sum", [1, M >> 1, m1]),
+                ("sum", [mx, mx, M >> 1, M >> 1, 2]),
+                # product = -2^(W-1) = MIN exactly / +2^(W-1) (not representable) / through 0
+                ("product", [1 << i, 1 << (W - 1 - i), m1]), ("product", [1 << i, m1, 1 << (W - 1 - i), m1]),
+                ("product", [1 << i, 1 << (W - 1 - i), 0]), ("product", [m1, M >> 1]), ("product", [M >> 1, m1, 0]),
+                ("product", [m1, m1, mx]), ("product", [2, mx, 0])]
+    else:
+        out += [("sum", [mx, 1]), ("sum", [mx - 1, 1]), ("sum", [1, mx, 0]), ("sum", [M >> 1, M >> 1]), ("sum", [M >> 1, (M >> 1) - 1, 1]),
+                ("sum", [mx, mx, 2]),
+                ("product", [1 << i, 1 << (W - i)]), ("product", [1 << i, 1 << (W - 1 - i)]), ("product", [1 << i, 1 << (W - i), 0]),
+                ("product", [(1 << i) - 1, 1 << (W - i)]), ("product", [mx, 1, 1]), ("product", [mx, 2, 0])]
+    return out
+
+
+def fold_reqs(s, cfg, mode, fam, xs, tag):
+    lst = ",".join(hx(x) for x in xs) or "-"
+    for op in ((fam, fam + "_ref")):
+        yield f"{op} {s}{cfg} {mode} {lst}", tag
+
+
+def clamp_triple(rng, w, n):
+    t, a, b = pair(rng, w, n)
+    c = rng.choice([a, b, value(rng, w, n)[1], value(rng, w, n)[1]])
+    xs = [a, b, c]
+    rng.shuffle(xs)
+    return t, xs
+
+
+def wide_cases(rng, cfg, seq):
+    """8192-bit instantiations: every operator family, few requests (the Lean side costs 10-150 ms per request here)"""
+    w, n = wn(cfg)
+    W = w * n
+    M = 1 << W
+    for s in "ui":
+        sg = s == "i"
+        texts = [str(((M >> 1) if sg else M) - 1), str((M >> 1) if sg else M)]
+        if sg:
+            texts += ["-" + str(M >> 1), "-" + str((M >> 1) + 1)]
+        for tx in texts:
+            yield f"from_str {s}{cfg} {tx.encode().hex()}", "from_str-limit"
+        for mode in ("dbg", "rel"):
+            hv = huge_values(rng, cfg)
+            for op in ("add", "sub", "bitand", "bitor", "bitxor"):
+                t, a, b = pair(rng, w, n)
+                if rng.random() < 0.5:
+                    a = rng.choice(hv)
+                yield f"{op}_{rng.choice(FORMS)} {s}{cfg} {mode} {hx(a)} {hx(b)}", "wide/" + t
+            t, a, b = mul_pair(rng, w, n, sg)
+            yield f"mul_{rng.choice(FORMS)} {s}{cfg} {mode} {hx(a)} {hx(b)}", "wide/" + t
+            t, a, b = div_pair(rng, w, n, sg)
+            yield f"div_{rng.choice(FORMS)} {s}{cfg} {mode} {hx(a)} {hx(b)}", "wide/" + t
+            yield f"rem_{rng.choice(FORMS)} {s}{cfg} {mode} {hx(a)} {hx(b)}", "wide/" + t
+            a = rng.choice(hv + [M >> 1])
+            yield f"not_{rng.choice(['v', 'r', 'inh'])} {s}{cfg} {mode} {hx(a)}", "wide"
+            if sg:
+                yield f"neg_{rng.choice(['v', 'r', 'inh'])} i{cfg} {mode} {hx(rng.choice([M >> 1, a, 1]))}", "wide"
+            # every amount type once (direction and form drawn), amounts biased to the neighbourhood of BITS = 8192
+            for ty in PRIM:
+                sh = rng.choice(["shl", "shr"])
+                a = rng.choice(hv)
+                seq[0] += 1
+                k = prim_amount(rng, ty, W, seq[0] if rng.random() < 0.6 else rng.choice([2, 3, 4, 13, 14, 17]))
+                yield f"{sh}_{ty}_{rng.choice(SFORMS)} {s}{cfg} {mode} {hx(a)} {k}", "wide-shift"
+                eff = prim_eff(mode, k)
+                if eff is not None and rng.random() < 0.5:
+                    yield inh_partner(sh, s, cfg, mode, a, eff), "wide-shift"
+            for m in (n, 1, 2, n + 1):
+                sh = rng.choice(["shl", "shr"])
+                kind = rng.choice(["bu", "bi"])
+                a = rng.choice(hv)
+                seq[0] += 1
+                k = bnum_amount(rng, w, m, W, seq[0] if rng.random() < 0.5 else rng.choice([2, 3, 4, 5]))
+                yield f"{sh}_{kind}{'' if m == n else m}_{rng.choice(SFORMS)} {s}{cfg} {mode} {hx(a)} {hx(k)}", "wide-shift-bnum"
+                v = bnum_amount_value(kind, w, m, k)
+                if 0 <= v < U32:
+                    yield inh_partner(sh, s, cfg, mode, a, v), "wide-shift-bnum"
+            fam, xs = rng.choice(fold_lists(rng, w, n, sg))
+            yield from fold_reqs(s, cfg, mode, fam, xs, "wide-fold")
+            xs = [rng.randrange(0, 12) for _ in range(rng.choice([0, 3, 17]))]
+            yield from fold_reqs(s, cfg, mode, rng.choice(["sum", "product"]), xs, "wide-fold")
+            yield f"default {s}{cfg} {mode}", "default"
+            t, a, b = pair(rng, w, n)
+            for op in rng.sample(["cmp_partial_cmp", "cmp_ord_cmp", "cmp_cmp_inh", "cmp_eq", "cmp_eq_inh", "cmp_ne", "cmp_lt", "cmp_le", "cmp_gt", "cmp_ge"], 3):
+                yield f"{op} {s}{cfg} {mode} {hx(a)} {hx(b)}", "wide/" + t
+            for op in rng.sample(["ord_max", "max_inh", "ord_min", "min_inh"], 2):
+                yield f"{op} {s}{cfg} {mode} {hx(a)} {hx(b)}", "wide/" + t
+            t, xs = clamp_triple(rng, w, n)
+            yield f"{rng.choice(['ord_clamp', 'clamp_inh'])} {s}{cfg} {mode} {hx(xs[0])} {hx(xs[1])} {hx(xs[2])}", "wide-clamp"
+            if not sg:
+                # the carry of `+ digit` runs through all N digits / stops one digit short
+                d = rng.choice([1, (1 << w) - 1])
+                yield f"add_digit u{cfg} {mode} {hx(M - d)} {hx(d)}", "wide-carry-chain"
+                yield f"add_digit u{cfg} {mode} {hx((M >> w) - d)} {hx(d)}", "wide-carry-chain"
+                k = rng.randrange(1, n)
+                yield f"add_digit u{cfg} {mode} {hx(((1 << (w * k)) - 1) | (rng.randrange(1 << w) << (w * k)))} {hx(rng.choice([1, 2]))}", "wide-carry-chain"
+                a = rng.choice(hv)
+                d = digit_value(rng, w)
+                yield f"div_digit u{cfg} {mode} {hx(a)} {hx(d)}", "wide"
+                yield f"rem_digit u{cfg} {mode} {hx(a)} {hx(d)}", "wide"
 
 
 def gen(rng, tier):
@@ -38,11 +244,23 @@ def gen(rng, tier):
             if l.startswith("from_str "):
                 yield l, t
     reps = 12 if tier == "thorough" else 6
+    seq = [rng.randrange(1000)]      # rotating amount-class counter
+
+    def nxt():
+        seq[0] += 1
+        return seq[0]
+
+    for cfg in WIDE17:
+        for _ in range(3 if tier == "thorough" else 1):
+            yield from wide_cases(rng, cfg, seq)
     for cfg in (CFGS17 if tier == "thorough" else QUICK17):
         w, n = wn(cfg)
         W = w * n
         M = 1 << W
-        for _ in range(reps):
+        for s in "ui":
+            for tx, tag in limit_numerals(W, s == "i"):
+                yield f"from_str {s}{cfg} {tx.encode().hex()}", tag
+        for rep in range(reps if cfg not in LIGHT17 else reps // 2):
             for s in "ui":
                 sg = s == "i"
                 # FromStr (decimal): values around the type's limits, u64-sized values on narrow types, signs
@@ -73,20 +291,57 @@ def gen(rng, tier):
                         yield f"not_{f} {s}{cfg} {mode} {hx(a)}", t
                         if sg:
                             yield f"neg_{f} i{cfg} {mode} {hx(a)}", t
-                    for ty in PRIM:
-                        for sh in ("shl", "shr"):
-                            f = rng.choice(SFORMS)
-                            t, a = value(rng, w, n)
-                            k = prim_amount(rng, ty, W)
-                            yield f"{sh}_{ty}_{f} {s}{cfg} {mode} {hx(a)} {k}", t
-                    for sh in ("shl", "shr"):
-                        t, a = value(rng, w, n)
-                        yield f"{sh}_u32_inh {s}{cfg} {mode} {hx(a)} {max(0, min((1 << 32) - 1, prim_amount(rng, 'u32', W)))}", t
+                    bn_ms = [n, 1, 2, n + 1]
+                    if rep == 0:
+                        # EVERY impl: amount type x direction x form; the forms of a group share operand and amount and
+                        # are followed by the inherent method on the same operand and `amount as u32` (compared in `post`)
+                        for ty in PRIM:
+                            for sh in ("shl", "shr"):
+                                t, a = value(rng, w, n)
+                                k = prim_amount(rng, ty, W, nxt())
+                                for f in SFORMS:
+                                    yield f"{sh}_{ty}_{f} {s}{cfg} {mode} {hx(a)} {k}", t
+                                eff = prim_eff(mode, k)
+                                if eff is not None:
+                                    yield inh_partner(sh, s, cfg, mode, a, eff), t
                         for kind in ("bu", "bi"):
-                            f = rng.choice(SFORMS)
+                            for m in bn_ms:
+                                for sh in ("shl", "shr"):
+                                    t, a = value(rng, w, n)
+                                    k = bnum_amount(rng, w, m, W, nxt())
+                                    for f in SFORMS:
+                                        yield f"{sh}_{kind}{'' if m == n else m}_{f} {s}{cfg} {mode} {hx(a)} {hx(k)}", t
+                                    v = bnum_amount_value(kind, w, m, k)
+                                    if 0 <= v < U32:
+                                        yield inh_partner(sh, s, cfg, mode, a, v), t
+                    else:
+                        for ty in PRIM:
+                            for sh in ("shl", "shr"):
+                                f = rng.choice(SFORMS)
+                                t, a = value(rng, w, n)
+                                k = prim_amount(rng, ty, W)
+                                yield f"{sh}_{ty}_{f} {s}{cfg} {mode} {hx(a)} {k}", t
+                                eff = prim_eff(mode, k)
+                                if eff is not None and eff >= W and mode == "rel":
+                                    # the specification may leave this value open: the inherent twin on the same operands decides
+                                    yield inh_partner(sh, s, cfg, mode, a, eff), t
+                        for sh in ("shl", "shr"):
                             t, a = value(rng, w, n)
-                            k = rng.choice([0, 1, W - 1, W, W + 1, rng.randrange(W), rng.randrange(W), M - 1, M >> 1, (1 << 32) % M, ((1 << 32) + 1) % M])
-                            yield f"{sh}_{kind}_{f} {s}{cfg} {mode} {hx(a)} {hx(k % M)}", t
+                            yield f"{sh}_u32_inh {s}{cfg} {mode} {hx(a)} {max(0, min((1 << 32) - 1, prim_amount(rng, 'u32', W)))}", t
+                            for kind in ("bu", "bi"):
+                                f = rng.choice(SFORMS)
+                                t, a = value(rng, w, n)
+                                k = rng.choice([0, 1, W - 1, W, W + 1, rng.randrange(W), rng.randrange(W), M - 1, M >> 1, (1 << 32) % M, ((1 << 32) + 1) % M])
+                                yield f"{sh}_{kind}_{f} {s}{cfg} {mode} {hx(a)} {hx(k % M)}", t
+                                # amount of a different digit count
+                                m = rng.choice(bn_ms[1:])
+                                f = rng.choice(SFORMS)
+                                t, a = value(rng, w, n)
+                                k = bnum_amount(rng, w, m, W)
+                                yield f"{sh}_{kind}{'' if m == n else m}_{f} {s}{cfg} {mode} {hx(a)} {hx(k)}", t
+                                v = bnum_amount_value(kind, w, m, k)
+                                if W <= v < U32 and mode == "rel":
+                                    yield inh_partner(sh, s, cfg, mode, a, v), t
                     # Sum / Product
                     k = rng.choice([0, 1, 2, 3, 4, 4, 5, 8, 9, 16, 17, 33])
                     small = rng.random() < 0.6
@@ -96,10 +351,20 @@ def gen(rng, tier):
                     lst = ",".join(hx(x) for x in xs) or "-"
                     for op in ("sum", "sum_ref", "product", "product_ref"):
                         yield f"{op} {s}{cfg} {mode} {lst}", "fold%d" % min(k, 6)
+                    fl = fold_lists(rng, w, n, sg)
+                    for fam, xs in (fl if rep == 0 else rng.sample(fl, 2)):
+                        yield from fold_reqs(s, cfg, mode, fam, xs, "fold-boundary")
                     yield f"default {s}{cfg} {mode}", "default"
                     t, a, b = pair(rng, w, n)
                     for op in ("cmp_partial_cmp", "cmp_ord_cmp", "cmp_cmp_inh", "cmp_eq", "cmp_eq_inh", "cmp_ne", "cmp_lt", "cmp_le", "cmp_gt", "cmp_ge"):
                         yield f"{op} {s}{cfg} {mode} {hx(a)} {hx(b)}", t
+                    # Ord::max / min / clamp (overridden) and the inherent twins, same operands
+                    t, a, b = pair(rng, w, n)
+                    for op in ("ord_max", "max_inh", "ord_min", "min_inh"):
+                        yield f"{op} {s}{cfg} {mode} {hx(a)} {hx(b)}", t
+                    t, xs = clamp_triple(rng, w, n)
+                    for op in ("ord_clamp", "clamp_inh"):
+                        yield f"{op} {s}{cfg} {mode} {hx(xs[0])} {hx(xs[1])} {hx(xs[2])}", "clamp/" + t
                     if not sg:
                         t, a = value(rng, w, n)
                         d = digit_value(rng, w)
@@ -115,3 +380,49 @@ def gen(rng, tier):
                             a = (((1 << (w * k)) - 1 - delta) | (up << (w * k))) % M
                             d = max(0, min((1 << w) - 1, delta + rng.choice([1, 1, 0, 2])))
                             yield f"add_digit u{cfg} {mode} {hx(a)} {hx(d)}", "carry-chain-%d" % min(k, 4)
+
+
+def post(ctx, lines, R, mo_sp):
+    """Trait form vs inherent method ON IDENTICAL OPERANDS, crate answer against crate answer: every `sh*_<ty>_<form>`
+    whose amount converts to the u32 `e` must answer what `sh*_u32_inh` answers for the same operand and `e`
+    (this also decides the cases the specification leaves open: release shifts with a reduced amount >= BITS at a
+    width that is not a power of two)."""
+    inh = {}
+    for i, l in enumerate(lines):
+        t = l.split(" ")
+        if t[0] in ("shl_u32_inh", "shr_u32_inh") and len(t) == 5:
+            inh[(t[0][:3], t[1], t[2], t[3], int(t[4]))] = i
+    bad = []
+    n_pairs = 0
+    for i, l in enumerate(lines):
+        t = l.split(" ")
+        p = t[0].split("_")
+        if len(p) != 3 or p[0] not in ("shl", "shr") or p[2] == "inh" or len(t) != 5:
+            continue
+        cfg, mode, a = t[1], t[2], t[3]
+        if p[1] in PRIM:
+            eff = prim_eff(mode, int(t[4]))
+        else:
+            w, n = wn(cfg[1:])
+            m = int(p[1][2:]) if p[1][2:] else n
+            v = bnum_amount_value(p[1][:2], w, m, int(t[4], 16))
+            eff = v if 0 <= v < U32 else None
+        if eff is None:
+            continue
+        j = inh.get((p[0], cfg, mode, a, eff))
+        if j is None:
+            continue
+        for bm, outs in R.items():
+            r, q = outs[i], outs[j]
+            if r in ("skip", "bad-op") or q in ("skip", "bad-op"):
+                continue
+            n_pairs += 1
+            if r != q:
+                bad.append({"line": l + "   vs   " + lines[j], "mode": bm, "crate": r + " vs " + q,
+                            "spec": "the trait form answers what the inherent method answers on the same operands", "model": mo_sp[i]})
+    ctx["c17_pairs"] = n_pairs
+    return bad
+
+
+def evidence_extra(ctx):
+    return {"trait_vs_inherent_shift_pairs_compared_on_crate_answers": ctx.get("c17_pairs", 0)}
